@@ -132,8 +132,10 @@ def _compile_item(src, kt):
     it.dt = src.get("datatype") or "string"
     it.type = src.get("type")
     it.default = src.get("default")
+    if it.default is not None:
+        it.default = model.strip_ws(it.default)          # surrounding blanks are not part of a default
     it.handler = src.get("handler").lower() if src.get("handler") else None
-    it.rawdefaults = [tuple(d) if isinstance(d, (list, tuple)) else d
+    it.rawdefaults = [(d[0], model.strip_ws(d[1])) if isinstance(d, (list, tuple)) else model.strip_ws(d)
                       for d in (src.get("defaults") or [])]
     it.defaults = None
     _key_defaults(it, kt)
